@@ -23,7 +23,7 @@ ASSUMPTIONS = [
     "remotepath.get_storage_usages is replaced by a stub returning a symbolic measured usage; sizes are whole MiB so that bytes/2**20 is exact (no IEEE rounding: see C14 for the float envelope)",
     "the float zero defaults of Hardware() (cores=0.0, memory=0.0, Storage('/', 0.0)) are replaced by integer 0 so that all ledger arithmetic is exact integer arithmetic",
     "amounts are exact integers 0..64; each job requires one storage (in the *_2entries obligations: two storage entries, outdir and tmpdir) on the location's single mount point '/'",
-    "the measured usage of a job's directories never exceeds its declared storage requirement (otherwise the ledger can exceed the capacity and Hardware.__sub__ raises 'negative size' inside _is_valid: noted in DESIGN.md as an observation outside C10-C12)",
+    "except in the *_overuse obligations (where usage may exceed the declaration but the volume can hold everything), the measured usage of a job's directories never exceeds its declared storage requirement (otherwise the ledger can exceed the capacity and Hardware.__sub__ raises 'negative size' inside _is_valid: noted in DESIGN.md as an observation outside C10-C12)",
     "callers' lifecycle (what ExecuteStep._run_job, ScheduleStep and RollbackFailureManager do): schedule only for a job that is unallocated or in ROLLBACK; RUNNING only from FIREABLE (or repeated while RUNNING); "
     "COMPLETED/FAILED/CANCELLED from FIREABLE, RUNNING, RECOVERY or another terminal status (duplicates and out-of-order terminal notifications included); RECOVERY from FIREABLE, RUNNING or FAILED; ROLLBACK from COMPLETED, FAILED or RECOVERY; no notification for a job whose schedule request is still waiting",
     "topologies: one location; two locations of one deployment (target.locations 1 or 2); slot-only location; a stacked wrapper location whose '/' is a bind of the base location's '/', with jobs targeting the wrapper and jobs targeting the base directly; two deployments as two declared targets",
@@ -51,7 +51,7 @@ T = (
 IMPORTS = "from harness.sched_lib import run_history"
 
 
-def _spec(prop, oracle, topo, nloc, prefix, L, bindings, hi=64, cond=900, fix_first=None, dims="cmd", usage_sym=True, tagname="", two_entries=False):
+def _spec(prop, oracle, topo, nloc, prefix, L, bindings, hi=64, cond=900, fix_first=None, dims="cmd", usage_sym=True, tagname="", two_entries=False, overuse=False):
     """dims: which of cores/memory/disk are symbolic (the others are 0 for capacity and requirement)."""
     nj = len(prefix)
     params, pre = [], []
@@ -81,8 +81,13 @@ def _spec(prop, oracle, topo, nloc, prefix, L, bindings, hi=64, cond=900, fix_fi
         if usage_sym:
             params.append("usage: int")
             pre.append(f"0 <= usage <= {hi}")
-            # jobs stay within their declared storage requirement
-            pre += [f"usage <= rd{j}" for j in range(nj)]
+            if overuse:
+                # a job may use MORE storage than it declared, as long as the volume can hold it
+                # (every release adds the measured usage to the ledger; at most 4 releases per history)
+                pre.append("4 * usage + " + " + ".join(f"rd{j}" for j in range(nj)) + " <= cd0")
+            else:
+                # jobs stay within their declared storage requirement
+                pre += [f"usage <= rd{j}" for j in range(nj)]
     split_expr = ""
     if two_entries:
         names = [f"rt{j}" for j in range(nj)]
@@ -106,13 +111,14 @@ def _spec(prop, oracle, topo, nloc, prefix, L, bindings, hi=64, cond=900, fix_fi
     call = f"run_history({topo!r}, {caps_expr}, {req_expr}, {bindings!r}, {list(prefix)!r}, {ops_expr}, {oracle!r}{extra}{split_expr})"
     pname = "".join(ST_NAMES[s][:2] for s in prefix)
     return Spec(
-        name=f"{topo}_{pname}_L{L}_{dims}" + ("" if fix_first is None else f"_f{fix_first}") + tagname + ("_2entries" if two_entries else ""),
+        name=f"{topo}_{pname}_L{L}_{dims}" + ("" if fix_first is None else f"_f{fix_first}") + tagname + ("_2entries" if two_entries else "") + ("_overuse" if overuse else ""),
         group=f"{prop} on topology '{topo}'",
         source=mk_source(IMPORTS, ", ".join(params), pre, call),
         cond=cond,
         path=90,
         bound=f"topology {topo}; {nj} jobs with targets {bindings}; canonical prefixes to statuses {[ST_NAMES[s] for s in prefix]}; then {L} operations with symbolic codes over {nj} jobs x {OPS}"
         + ("" if fix_first is None else f" (partition: first code {fix_first})")
+        + ("; the measured usage may EXCEED the declared requirement (4*usage + sum of requirements <= capacity)" if overuse else "")
         + ("; every job declares TWO storage entries (outdir, tmpdir) on the same mount point, both sizes symbolic" if two_entries else "")
         + (f"; symbolic dimensions {dims} (c=cores, m=memory, d=disk; the others 0){', measured usage symbolic' if usage_sym else ''}, ints 0..{hi}" if topo != "slots" else "; slots symbolic 1..2"),
         symbolic=f"{len(params)} ints",
@@ -136,6 +142,9 @@ def gen(prop, oracle, tier):
     # (1b) two storage entries per job on one mount point (CWL outdir + tmpdir on one volume)
     for pr in [(NONE, NONE), (RUNNING, NONE), (FIREABLE, NONE), (RUNNING, RUNNING)] + ([] if quick else [(COMPLETED, NONE), (ROLLBACK, NONE), (RUNNING, FIREABLE)]):
         out.append(_spec(prop, oracle, "one", 1, pr, 1 if quick else 2, two, dims="d", cond=big, two_entries=True))
+    # (1c) jobs that use more storage than they declared (ledger stays within the capacity)
+    for pr in [(RUNNING, NONE), (RUNNING, RUNNING), (COMPLETED, RUNNING)] + ([] if quick else [(FIREABLE, RUNNING), (ROLLBACK, RUNNING), (RECOVERY, RUNNING)]):
+        out.append(_spec(prop, oracle, "one", 1, pr, 1 if quick else 2, two, dims="d", cond=big, overuse=True))
     # (2) two steps
     sel = [(NONE, NONE), (FIREABLE, NONE), (RUNNING, NONE), (RUNNING, RUNNING), (RUNNING, ROLLBACK), (COMPLETED, RUNNING)]
     for pr in sel[:4] if quick else pairs:
